@@ -52,7 +52,6 @@ def contacts(s3):
 def spec(s3, pairs):
     """soundness, edge exclusivity and maximality, decided directly; returns (failure or None, undecided?)"""
     from . import chem as T
-    from rnapolis.annotator import detect_cis_trans
     R = s3.residues
     cs = contacts(s3)
     if any(abs(m) < 1e-6 for *_, m in cs):
@@ -78,7 +77,9 @@ def spec(s3, pairs):
         n = len(set(support))
         if n < 2:
             return f"pair {R[i].full_name}-{R[j].full_name} {lw} has fewer than two supporting contacts on its edges", False
-        c = detect_cis_trans(R[i], R[j])
+        c, und = T.cis_trans(R[i], R[j])
+        if und:
+            return None, True
         if c is None or c != ct:
             return f"cis/trans letter of {R[i].full_name}-{R[j].full_name} {lw} does not match the glycosidic torsion", False
         for key in ((i, ei), (j, ej)):
@@ -94,7 +95,9 @@ def spec(s3, pairs):
         a, b = edge(ri, ni), edge(rj, nj)
         if not a or not b:
             continue
-        c = detect_cis_trans(R[ri], R[rj])
+        c, und = T.cis_trans(R[ri], R[rj])
+        if und:
+            return None, True
         if c is None:
             continue
         lo, hi = (ri, rj) if R[ri] < R[rj] else (rj, ri)
